@@ -111,6 +111,13 @@ def cont1_2(ctx: Ctx) -> None:
             ctx.R.fail("CONT-1", mod, esc, f"{why}: the handler around `{label}` re-raises or leaves the engine loop: the fault is not contained / outer frames are lost",
                        construct=f"{label} -> {norm(esc)}")
             continue
+        if "FrameIterator" in why:
+            il = enclosing_loops(mod, t)
+            ends = [n for st in h.body for n in [st] + contains(st, (ast.Break, ast.Return, ast.Raise)) if isinstance(n, ast.Break)]
+            if il and il[0] is not main and not ends:
+                ctx.R.fail("CONT-1", mod, h, "after a FrameIterator raised, the handler does not leave the stepping loop: an iterator whose __next__ keeps raising is stepped forever (extract hangs)",
+                           construct=f"handler of {label}: no break")
+                continue
         ctx.R.ok("CONT-1", f"extract_iter: {label}", f"guarded by `except {norm(h.type) if h.type else ''}`; {why}")
         # CONT-2
         name = h.name
